@@ -36,4 +36,47 @@ theorem where_level_vm (f : Frame) (rest : List Frame) (sp l : Nat) (hf : f.isG 
     raiseWhere (f :: rest) sp 1 = .ok (some (.pos l)) :=
   GLua.Props.C17.where_level_vm f rest sp l hf hline
 
+/-! the line table (Model/CompileLines.lean) -/
+section LineTable
+open GLua.Compile GLua.Lines GLua.MiniVM
+variable [NumStruct]
+
+theorem line_table_parallel_to_code (p : TProg) :
+    (compLines p).length = (compileMain p.nlocals p.body.erase).code.length :=
+  GLua.Props.C17.line_table_parallel_to_code p
+theorem line_table_parallel_to_proto (p : TProg) (pr : Verifier.Proto) (h : fragProto p.nlocals p.body.erase = .ok pr) :
+    pr.code.size = (compLines p).length ∧ pr.nLines = (compLines p).length :=
+  GLua.Props.C17.line_table_parallel_to_proto p pr h
+theorem line_table_shape (p : TProg) :
+    compLines p = stmtLines p ++ [finalLine p] ∧ (stmtSpans p).length = (stmtLines p).length :=
+  GLua.Props.C17.line_table_shape p
+theorem line_in_statement_span (p : TProg) (hm : Mono p.toks) (pc l : Nat) (sp : Span)
+    (hl : (stmtLines p)[pc]? = some l) (hs : (stmtSpans p)[pc]? = some sp) : inSpan l sp :=
+  GLua.Props.C17.line_in_statement_span p hm pc l sp hl hs
+theorem single_line_statement_exact (p : TProg) (hm : Mono p.toks) (pc l : Nat) (sp : Span)
+    (hl : (stmtLines p)[pc]? = some l) (hs : (stmtSpans p)[pc]? = some sp) (h1 : sp.1 = sp.2) : l = sp.1 :=
+  GLua.Props.C17.single_line_statement_exact p hm pc l sp hl hs h1
+theorem statement_code_range (s : TStmt) (hm : Mono s.toks) (S : LState Nat) (hS : WF S) :
+    ∃ δ, (compStmtL (toAStmt s) S).lines = S.lines ++ δ ∧
+      (compStmtL (toAStmt s) S).lines.length = (compileStmt s.erase S.st).code.length ∧
+      ∀ l ∈ δ, inSpan l s.span :=
+  GLua.Props.C17.statement_code_range s hm S hS
+theorem header_code_range (s : TStmt) (hm : Mono s.toks) (c : TCond) (hc : s.cond? = some c) (S : LState Nat) (hS : WF S)
+    (thenl elsel : Nat) :
+    ∃ δ, (compileBranchConditionL S S.st.regTop (toA c) thenl elsel false).lines = S.lines ++ δ ∧
+      ∀ l ∈ δ, inSpan l s.header :=
+  GLua.Props.C17.header_code_range s hm c hc S hS thenl elsel
+theorem expression_code_range (c : TCond) (m : Mode) (S : LState Nat) (hS : WF S) (htop : S.st.regTop ≤ m.reg) :
+    ∃ δ, (compL (toA c) m S).S.lines = S.lines ++ δ ∧ ∀ l ∈ δ, l ∈ c.toks :=
+  GLua.Props.C17.expression_code_range c m S hS htop
+theorem lines_shift_invariant (p : TProg) (σ : Nat → Nat) : stmtLines (p.mapLines σ) = (stmtLines p).map σ :=
+  GLua.Props.C17.lines_shift_invariant p σ
+theorem final_line_shift (p : TProg) (σ : Nat → Nat) :
+    finalLine (p.mapLines σ) = match lastEline p with | some l => σ l + 1 | none => 0 :=
+  GLua.Props.C17.final_line_shift p σ
+theorem lines_shift_invariant_full_fails : ¬ GLua.Props.C17.LinesShiftInvariantFull :=
+  GLua.Props.C17.lines_shift_invariant_full_fails
+
+end LineTable
+
 end GLua.Props.C17M
